@@ -166,7 +166,7 @@ func (r *Run) opClientAssert(st Step) {
 	r.logf("client_assert %s variant=%s -> %d %s", cs.ID, v, res.Status, outcomeOf(res))
 	r.Shape = append(r.Shape, "cassert:"+v)
 	r.probe("assert-variant:client:" + v)
-	if res.Crashed || r.Fault.fired {
+	if res.Crashed || r.anyFault() {
 		return
 	}
 	if tokens {
@@ -301,7 +301,7 @@ func (r *Run) opBearerAssert(st Step) {
 	r.logf("bearer_assert %s variant=%s by %s -> %d %s", b.Issuer, v, cs.ID, res.Status, outcomeOf(res))
 	r.Shape = append(r.Shape, "bassert:"+v)
 	r.probe("assert-variant:bearer:" + v)
-	if res.Crashed || r.Fault.fired {
+	if res.Crashed || r.anyFault() {
 		return
 	}
 	if !authValid(cs, st.A) && !r.W.K.JWTBearerSkipClientAuth {
